@@ -5,8 +5,9 @@
            tag 0                 everybody is polled
                1 p c             report_connection_established of connection c to peer p (all services)
                2 p c             report_connection_closed (all services); the ProtocolSet is dropped
-               3 i p c           inbound substream for service i on connection c
-               4 i id            the connection answers open `id` of service i with SubstreamOpened
+               3 i p c m         inbound substream for service i on connection c, negotiated over the
+                                 protocol's main name (m = 1) or over its fallback name (m = 0)
+               4 i id m          the connection answers open `id` of service i with SubstreamOpened (m as above)
                5 i id            ... with SubstreamOpenFailure
                6 i p             DialFailure to service i
                7 i p             service i calls open_substream(p)
@@ -30,8 +31,8 @@ Definition p_mop : parser (N * mev) :=
   | 0 => pret (dt, MAll ENone)
   | 1 => let* p := pN in let* c := pN in pret (dt, MAll (EEst p c))
   | 2 => let* p := pN in let* c := pN in pret (dt, MAll (EClosed p c))
-  | 3 => let* i := pN in let* p := pN in let* c := pN in pret (dt, MOne i (ESubIn p c true))
-  | 4 => let* i := pN in let* id := pN in pret (dt, MOne i (ESubOut (rid id) true))
+  | 3 => let* i := pN in let* p := pN in let* c := pN in let* m := pBool in pret (dt, MOne i (ESubIn p c m))
+  | 4 => let* i := pN in let* id := pN in let* m := pBool in pret (dt, MOne i (ESubOut (rid id) m))
   | 5 => let* i := pN in let* id := pN in pret (dt, MOne i (ESubFail (rid id)))
   | 6 => let* i := pN in let* p := pN in pret (dt, MOne i (EDialFail p))
   | 7 => let* i := pN in let* p := pN in pret (dt, MOne i (EOpen p))
@@ -422,4 +423,70 @@ Definition multi_ok9 (case trace : list N) : bool :=
   match decode_mcase case, trace with
   | None, [0] => true
   | _, _ => match mjudged case trace with Some q => q_ok9 q | None => false end
+  end.
+
+(* ====================================================================================
+   the name tables of ProtocolSet::new (case kind 6, model: Names.v)
+     case  : 6 nproto {main ka nfb fb..}.. nq q..
+             the installed protocols (main name, keep-alive flag, fallback names; names are small
+             numbers n, written /n/<n> in the harness), then names under which an inbound substream
+             is reported (report_substream_open)
+     trace : 6 ntable {name ka}..     protocols_with_keep_alives(), sorted by name
+               {code main fb+1}..     per reported name: 0 delivered to the protocol with that main
+                                      name, fallback as given; 1 refused (name unknown) *)
+From V.Ts Require Import Names.
+
+Definition p_proto : parser proto :=
+  let* m := pN in let* ka := pBool in let* fbs := plist pN in pret (mkP m fbs ka).
+Definition decode_ncase (l : list N) : option (list proto * list N) :=
+  match l with
+  | 6 :: rest =>
+      match pall (let* tbl := plist p_proto in let* qs := plist pN in pret (tbl, qs)) rest with
+      | Some (tbl, qs) =>
+          if nodup_b (all_names tbl) && forallb small (all_names tbl) && forallb small qs &&
+             (N.of_nat (length tbl) <? 9) && (0 <? N.of_nat (length tbl))
+          then Some (tbl, qs) else None
+      | None => None
+      end
+  | _ => None
+  end.
+
+Definition run_names (l : list N) : list N :=
+  match decode_ncase l with
+  | Some (tbl, qs) =>
+      6 :: enc_list (fun kv : N * bool => [fst kv; b2n (snd kv)]) (sort_by fst (keep_alives tbl)) ++
+      flat_map (fun q => let '(m, fb) := resolve tbl q in
+                         match find_main tbl m with
+                         | Some _ => [0; m; enc_opt fb]
+                         | None => [1; 0; 0]
+                         end) qs
+  | None => [0]
+  end.
+
+(* C09 on such a trace: every negotiable name — main and fallback — is offered with exactly the
+   keep-alive flag of the protocol it belongs to (that flag decides whether an accepted inbound
+   substream holds the connection), nothing else is offered; a substream reported under any of a
+   protocol's names reaches that protocol under its main name *)
+Definition names_ok (case trace : list N) : bool :=
+  match decode_ncase case, trace with
+  | None, [0] => true
+  | Some (tbl, qs), 6 :: body =>
+      match pall (let* tb := plist (let* n := pN in let* k := pBool in pret (n, k)) in
+                  let* rs := prep (length qs) (let* a := pN in let* b := pN in let* c := pN in pret (a, b, c)) in
+                  pret (tb, rs)) body with
+      | Some (tb, rs) =>
+          forallb (fun pr => forallb (fun n => match assoc n tb with Some k => Bool.eqb k (p_ka pr) | None => false end)
+                                     (p_main pr :: p_fbs pr)) tbl &&
+          forallb (fun nk : N * bool => mem (fst nk) (all_names tbl)) tb &&
+          nodup_b (map fst tb) &&
+          forallb (fun qr : N * (N * N * N) =>
+                     let q := fst qr in let '(code, m, fb) := snd qr in
+                     match find (fun pr => mem q (p_main pr :: p_fbs pr)) tbl with
+                     | Some pr => (code =? 0) && (m =? p_main pr) &&
+                                  (fb =? if q =? p_main pr then 0 else q + 1)
+                     | None => code =? 1
+                     end) (combine qs rs)
+      | None => false
+      end
+  | _, _ => false
   end.
